@@ -37,7 +37,9 @@ def to_events(trace):
     # right after await_resume copied the value out and before the coroutine's own marker `!cb <name>`
     await_names = {}
     for thr, k, a, b, c in parsed:
-        if k == "m" and a.startswith("await "):
+        if k == "m" and (a.startswith("await ") or a.startswith("unwrap ")):
+            # co_await's awaiter object / the SharedFuture returned by a continuation that the library flattens: a
+            # temporary copy through which a const-reading callback is attached and which is released right after the read
             _, src, hname, cname = a.split()
             await_names[cname] = hname
     tag = {}
@@ -71,6 +73,12 @@ def to_events(trace):
     ready_of = {}          # thread -> index of its latest Ready()/await_ready() observation (markers of one thread may
     taken_by = {}          # be separated from its operation by other threads' operations); thread -> value it took out
 
+    def restore(thr, cx):
+        if cx.get("prev") is not None:
+            ctx[thr] = cx["prev"]
+        else:
+            ctx.pop(thr, None)
+
     def hid(name):
         if name not in handles:
             raise MapError("unknown handle " + name)
@@ -95,15 +103,18 @@ def to_events(trace):
                     nh = 1
             elif head == "set":
                 evs.append("ESet %d" % int(f[1]))
-            elif head in ("setdone", "attached", "destroyed", "woke", "drain"):
-                if head in ("attached", "destroyed", "woke"):
+            elif head in ("setdone", "attached", "woke", "drain"):
+                if head in ("attached", "woke"):
                     ctx.pop(thr, None)
             elif head == "copy":
                 ctx[thr] = dict(k="copy", src=f[1], new=f[2])
             elif head == "splitp":
                 ctx[thr] = dict(k="splitp", new=f[1])
             elif head == "destroy":
-                ctx[thr] = dict(k="destroy", h=f[1])
+                ctx[thr] = dict(k="destroy", h=f[1], prev=ctx.get(thr))     # (may happen inside another operation)
+            elif head == "destroyed":
+                if cx and cx["k"] == "destroy":
+                    restore(thr, cx)
             elif head == "ready":
                 ctx[thr] = dict(k="ready", h=f[1])
             elif head.startswith("ready="):
@@ -115,10 +126,11 @@ def to_events(trace):
             elif head == "attach":
                 kinds[f[3]] = KIND[f[2]]
                 ctx[thr] = dict(k="attach", h=f[1], kind=KIND[f[2]], name=f[3], stage=0)
-            elif head == "await":
+            elif head in ("await", "unwrap"):
                 kinds[f[3]] = "KInl"
                 astate[f[3]] = "ready"
-                ctx[thr] = dict(k="await", src=f[1], h=f[2], kind="KInl", name=f[3], stage="init")
+                ctx[thr] = dict(k="await", src=f[1], h=f[2], kind="KInl", name=f[3], stage="init",
+                                unwrap=(head == "unwrap"))
             elif head == "got":
                 code = int(f[1])
                 if cx and ((cx["k"] == "touch" and not cx["mv"]) or (cx["k"] == "wait" and cx["kont"] == "WRead")):
@@ -254,6 +266,8 @@ def to_events(trace):
                         cx["stage"] = "done"
                         if cx["k"] == "await":
                             astate[cx["name"]] = "attached"
+                            if cx.get("unwrap"):
+                                ctx.pop(thr, None)
                 else:
                     out["cas_fail"] += 1
                     if v == "R":
@@ -289,7 +303,7 @@ def to_events(trace):
                     evs.append("ECopy %d" % hid(cx["src"]))
                     handles[cx["h"]] = nh
                     nh += 1
-                    cx["stage"] = "copied"
+                    cx["stage"] = 0 if cx.get("unwrap") else "copied"       # no await_ready before SetInline
                 elif cx and cx["k"] == "attach" and cx["stage"] == "inline" and cx["kind"] == "KCall":
                     evs.append("EIncInl %d" % hid(cx["h"]))
                     new_cb(cx["name"])
@@ -301,12 +315,14 @@ def to_events(trace):
             elif op == "fetch_sub":
                 if i in tag:
                     evs.append("EDestroy %d" % hid(await_names[tag[i][1]]))
+                    if cx and cx.get("unwrap") and cx["name"] == tag[i][1]:
+                        ctx.pop(thr, None)
                 elif thr in after_cb and after_cb[thr] is not None:
                     evs.append("ECbDec %d" % after_cb[thr])
                     after_cb[thr] = None
                 elif cx and cx["k"] == "destroy":
                     evs.append("EDestroy %d" % hid(cx["h"]))
-                    ctx.pop(thr, None)
+                    restore(thr, cx)
                 elif thr == "F":
                     evs.append("EDecF")
                 else:
